@@ -75,11 +75,23 @@ static void linuxnode_cb(struct hwloc_topology *t, int root_fd, int dist, int dc
   const char *eo = getenv("HWLOC_DEBUG_ALLOW_OVERLAPPING_NODE_CPUSETS"), *ek = getenv("HWLOC_KNL_NUMA_QUIRK");
   DIR *dir, *sub; struct dirent *de; char path[512], tag[96];
   hwloc_bitmap_t seen = hwloc_bitmap_alloc();
-  int nvidia = 0;
+  const char *eg = getenv("HWLOC_KEEP_NVIDIA_GPU_NUMA_NODES");
+  int nvidia = 0, keep = eg ? atoi(eg) : !power;
   if ((sub = ln_opendir(root_fd, "/proc/driver/nvidia/gpus"))) { nvidia = 1; closedir(sub); }
   printf("lnode begin dist=%d dcl=%d init=%d knl=%d fake=%d power=%d msc=%d mattr=%d", dist, dcl, init, knl, fake, power, msc, mattr);
   if (eo) printf(" overlap=%d", atoi(eo)); else printf(" overlap=-");
-  printf(" knlquirk=%d nvidia=%d rootnodes=%d\n", ek ? atoi(ek) : 1, nvidia, !hwloc_bitmap_iszero(hwloc_get_root_obj(t)->nodeset));
+  printf(" knlquirk=%d nvidia=%d keep=%d rootnodes=%d\n", ek ? atoi(ek) : 1, nvidia, keep != 0, !hwloc_bitmap_iszero(hwloc_get_root_obj(t)->nodeset));
+  if ((sub = ln_opendir(root_fd, "/proc/driver/nvidia/gpus"))) {
+    /* the GPUs, readdir order: numa_status and the local cpus of the PCI device of that name */
+    struct dirent *e;
+    while ((e = readdir(sub)) != NULL) {
+      if (!strcmp(e->d_name, ".") || !strcmp(e->d_name, "..") || strlen(e->d_name) > 200) continue;
+      printf("lnode gpu "); ln_hex(e->d_name); printf("\n");
+      snprintf(path, sizeof(path), "/proc/driver/nvidia/gpus/%s/numa_status", e->d_name); ln_file(root_fd, path, "lnode gf status");
+      snprintf(path, sizeof(path), "/sys/bus/pci/devices/%s/local_cpus", e->d_name); ln_file(root_fd, path, "lnode gf local");
+    }
+    closedir(sub);
+  }
   ln_file(root_fd, "/sys/devices/system/node/online", "lnode online");
   dir = ln_opendir(root_fd, "/sys/devices/system/node");
   if (!dir) { printf("lnode nodir\nlnode end\n"); hwloc_bitmap_free(seen); return; }
